@@ -227,7 +227,7 @@ func checkC19(p *load.Program, r *kit.Report) {
 		func(o *kit.Obligation) bool { return strings.HasSuffix(o.Construct, "-lookup-scope") }, "ORDER")
 	r.NotDecided = "that a protocol-conformant peer's reply connects to a header we hold (needs a peer model); whether sorting by height makes every duplicate adjacent; locator contents for a given history."
 	r.Rule("PROVENANCE", "every hash placed in a locator is AtHeight(h).Hash / Last().Hash of the branch, a split's BeforeHash, or AtHeight(PrunedLowestHeight()).Hash of a branch other than the best one", 5)
-	r.Rule("START-SHAPE", "the best-chain walk starts at Height()-1 (genesis alone at height 0), steps down by a positive, doubling delta, and tests len(result) >= max after every best-chain hash", 2)
+	r.Rule("START-SHAPE", "the best-chain walk starts at Height()-1 (genesis alone at height 0), steps down by a positive, doubling delta, tests len(result) >= max after every best-chain hash, and ends before adding a hash only where AtHeight(height) has no header", 3)
 	r.Rule("DEDUP", "the locator returned on the wire is de-duplicated by a loop that keeps an element exactly when it is the first or its hash differs from the previous kept hash, the previous hash being carried across iterations", 2)
 	r.Rule("DERIVED-STATE", "locators are computed from the tree state; any other Repository field they read is rewritten by every function that changes branches/longest", 1)
 	r.Rule("CALL-SITE", "senders request locators with positive maxima (10 initial, 3 follow-up) and use the verify-only locator for verification", 3)
@@ -439,6 +439,94 @@ func checkC19(p *load.Program, r *kit.Report) {
 			}
 		}
 		r.Check(bad == "", "START-SHAPE", "Branch.GetLocatorHashes/max", pos, "len(result) >= max tested after each best-chain hash", bad)
+		// the walk gives up before adding a best-chain hash only when AtHeight(height) — which
+		// walks into the parent branches — has no header (or the height ran below 0): a bound taken
+		// from the branch's own pruned height stops a one-header child branch before its parent's
+		// header, and the locator then starts at genesis instead of at the tip's parent
+		{
+			badW := ""
+			ats := kit.CallsTo(f, H+".Branch.AtHeight")
+			var inLoopAt *ssa.Call
+			for _, c := range ats {
+				if len(cycleOf(c.Block())) > 0 {
+					inLoopAt, _ = c.(*ssa.Call)
+				}
+			}
+			if inLoopAt == nil {
+				badW = "AtHeight is not asked inside the walk"
+			} else if header, body := loopBodyEntry(f, inLoopAt); header == nil || body == nil {
+				badW = "the walk is not a loop"
+			} else {
+				loop := naturalLoop(header)
+				var keeps []ssa.Instruction
+				kit.AllInstrs(f, func(in ssa.Instruction) {
+					c, ok := in.(*ssa.Call)
+					if !ok || kit.CallID(c) != "builtin.append" || !loop[c.Block()] {
+						return
+					}
+					if kit.DependsOn(c.Call.Args[1], func(v ssa.Value) bool {
+						cc, ok := v.(*ssa.Call)
+						return ok && kit.CallID(cc) == H+".Branch.AtHeight"
+					}) {
+						keeps = append(keeps, in)
+					} else if sl, ok := c.Call.Args[1].(*ssa.Slice); ok {
+						// append(result, &HeightHash{Hash: data.Hash}): the element is stored into
+						// the variadic array
+						if al, ok := sl.X.(*ssa.Alloc); ok {
+							for _, ref := range *al.Referrers() {
+								if ia, ok := ref.(*ssa.IndexAddr); ok {
+									for _, r2 := range *ia.Referrers() {
+										if st, ok := r2.(*ssa.Store); ok {
+											if obj, ok := kit.Strip(st.Val).(*ssa.Alloc); ok {
+												for _, r3 := range *obj.Referrers() {
+													if fa, ok := r3.(*ssa.FieldAddr); ok {
+														for _, r4 := range *fa.Referrers() {
+															if st2, ok := r4.(*ssa.Store); ok && kit.DependsOn(st2.Val, func(v ssa.Value) bool {
+																cc, ok := v.(*ssa.Call)
+																return ok && kit.CallID(cc) == H+".Branch.AtHeight"
+															}) {
+																keeps = append(keeps, in)
+															}
+														}
+													}
+												}
+											}
+										}
+									}
+								}
+							}
+						}
+					}
+				})
+				nilOrNeg := kit.FindGuards(f, func(c ssa.Value) (bool, bool) {
+					b, ok := c.(*ssa.BinOp)
+					if !ok {
+						return false, false
+					}
+					if (b.Op == token.EQL || b.Op == token.NEQ) && kit.IsNilConst(b.Y) {
+						if cc, ok := kit.Strip(b.X).(*ssa.Call); ok && kit.CallID(cc) == H+".Branch.AtHeight" {
+							return true, b.Op == token.EQL
+						}
+					}
+					if k, isC := kit.ConstInt(b.Y); isC && k == 0 && b.Op == token.LSS {
+						return true, true
+					}
+					return false, false
+				})
+				if len(keeps) == 0 {
+					badW = "no hash taken from AtHeight is added inside the walk"
+				} else {
+					rr := kit.Reach(f, []kit.Pt{{B: body, I: 0}}, kit.Opts{StopAt: kit.InstrSet(keeps...), BlockEdge: kit.EdgeSet(edgesOf(nilOrNeg, true)...)})
+					for _, b := range f.Blocks {
+						if !loop[b] && len(b.Instrs) > 0 && rr.Has(b.Instrs[0]) {
+							badW = "the walk can stop before adding the hash at the current height although AtHeight(height) was not asked or returned a header (" + rr.PathTo(b.Instrs[0], p.Pos) + "): AtHeight walks into the parent branches, any other bound (the branch's own pruned height) drops the tip's parent from the locator of a short child branch"
+							break
+						}
+					}
+				}
+			}
+			r.Check(badW == "", "START-SHAPE", "Branch.GetLocatorHashes/stops-only-without-header", pos, "before a best-chain hash is added the walk ends only behind AtHeight(height) == nil (or height < 0)", badW)
+		}
 	}
 
 	// DEDUP
